@@ -131,6 +131,38 @@ var c07IdOps = []c07IdOp{
 		}
 		return idField("times", `{"bugs-edit":900}`)(h, j%len(h.Versions))
 	}},
+	{"id/times-dropped-and-replaced", true, true, func(h *iHistory, j int) bool {
+		// one clock disappears while a new clock name appears: the number of clocks does not shrink
+		if len(h.Versions) < 2 {
+			return false
+		}
+		if j == 0 {
+			j = 1
+		}
+		return idField("times", `{"bugs-edit":900,"boards-edit":1}`)(h, j%len(h.Versions))
+	}},
+	{"id/times-dropped-more-added", true, true, func(h *iHistory, j int) bool {
+		if len(h.Versions) < 2 {
+			return false
+		}
+		if j == 0 {
+			j = 1
+		}
+		return idField("times", `{"bugs-create":900,"boards-create":1,"boards-edit":1,"x":7}`)(h, j%len(h.Versions))
+	}},
+	{"id/times-one-decreasing-one-new", true, true, func(h *iHistory, j int) bool {
+		if len(h.Versions) < 2 {
+			return false
+		}
+		if j == 0 {
+			j = 1
+		}
+		return idField("times", `{"bugs-create":900,"bugs-edit":1,"boards-edit":5000}`)(h, j%len(h.Versions))
+	}},
+	{"id/times-new-clock-added-legal", false, true, func(h *iHistory, j int) bool {
+		// a version may add clocks (a new entity type appeared): legal, everything else keeps growing
+		return idField("times", `{"bugs-create":900,"bugs-edit":900,"boards-edit":1}`)(h, len(h.Versions)-1)
+	}},
 	{"id/times-all-dropped", true, true, func(h *iHistory, j int) bool {
 		if len(h.Versions) < 2 {
 			return false
